@@ -233,9 +233,10 @@ class DataSaveable:
         """
         if with_axis is not None:
             data = self._data_with_axis(with_axis)
-            io.savemat(file, {"data":data})
         else:
-            io.savemat(file, {"data":self.data})
+            data = self.data
+        # Matlab has no one-dimensional arrays; remember the rank
+        io.savemat(file, {"data":data, "ndim":len(data.shape)})
 
     
     def _loadMatlab(self, file, with_axis=None):
@@ -243,7 +244,10 @@ class DataSaveable:
         
         """
         self.set_data_writable()
-        _data = io.loadmat(file)["data"]
+        content = io.loadmat(file)
+        _data = content["data"]
+        if "ndim" in content and int(numpy.ravel(content["ndim"])[0]) == 1:
+            _data = _data.reshape(-1)
         self.data = self._extract_data_with_axis(_data, with_axis)
         self.set_data_protected()
 
